@@ -1556,6 +1556,18 @@ def prov_after_branch_order(repo, tier="quick"):
                            "(`)=|n`: then it is the order between the copies)")
                 elif after_brace or after_number:
                     ok = True
+                elif not any(isinstance(x, tuple) and x and x[0] == "call" and is_call(x, "_find_next_character") and len(is_call(x, "_find_next_character")[0]) >= 2 and
+                             any(isinstance(y, tuple) and y == ("const", ")") for y in walk_term(is_call(x, "_find_next_character")[0][1]))
+                             for x in walk_term(idx)) and \
+                        not any(isinstance(x, tuple) and x and x[0] == "call" and method_call(x) and method_call(x)[1] in ("find", "index", "rfind") and
+                                any(isinstance(y, tuple) and y == ("const", ")") for y in walk_term(x)) for x in walk_term(idx)) and \
+                        not any(isinstance(x, tuple) and x and x[0] == "var" for x in walk_term(idx)):
+                    # the position is computed from something else than the closing brace (the end of the node, the start of the next
+                    # node): ring markers, a multiplier or another brace can stand in between
+                    obs.append(ob_fail(oid, fi, d.ast, construct="%s = table[pattern[%s]]" % (ovar, show(idx)[:80]), instance="source",
+                                       reason="the position of the symbol behind a branch is not computed from the position of the closing brace: with ring markers on "
+                                              "the last node of the branch, or a second brace behind it, another character is read and the order written behind the "
+                                              "branch is lost or taken from a ring marker"))
                 else:
                     obs.append(ob_undecided(oid, fi, d.ast, construct="%s = table[pattern[%s]]" % (ovar, show(idx)[:80]), instance="source",
                                             reason="the symbol is read at a position that is neither directly behind the closing brace nor directly behind the "
